@@ -47,10 +47,13 @@ SEARCH_FILES = SAFE_FILES + ["src/math/zz/zz_etc.c", "src/math/zz/zz_mul.c", "sr
     sorted(set(f for f, _ in VERIFY))
 # external routines accepted as opaque (not translated; their own regularity is the business of
 # mechanism C / of property C01/C03): everything else that has no body is NOT accepted.
-OPAQUE = ["beltMACStepG_internal", "beltDWPStepG_internal", "beltCHEStepG_internal", "beltHashStepG_internal",
-          "beltHMACStepG_internal", "bashHashStepG_internal",
+OPAQUE = ["beltBlockEncr", "beltBlockEncr2", "beltBlockDecr", "beltPolyMul", "beltCompr", "beltCompr2", "bashF", "u32From", "u32To",
+          "u64From", "u64To", "beltHashStepH", "beltHashStart",
           "blobCreate", "blobClose", "beltWBL_keep", "beltWBLStart", "beltWBLStepD2",
           "memCopy", "memMove", "memSet"]
+# struct fields that hold PUBLIC data (fill counters derived from the lengths of the processed data)
+PUBFIELDS = {("belt_mac_st", "filled"), ("belt_dwp_st", "filled"), ("belt_che_st", "filled"), ("belt_hash_st", "filled"),
+             ("belt_hmac_st", "filled"), ("bash_hash_st", "pos"), ("bash_hash_st", "buf_len")}
 # never followed even though a body exists in a searched file
 NOFOLLOW = set(OPAQUE)
 PUBMEM = {("hexEq", "hex"), ("hexEqRev", "hex"), ("hexToO", "hex"), ("strLen", "str"), ("strlen", "s"),
@@ -367,6 +370,10 @@ class FnTr:
                 raise Unhandled("%s: layout of %s.%s unknown" % (self.name, rec[1], fld))
             t = self.tu.resolve(qt(n))
             sz = 0 if t[0] in ("arr", "rec") else self.tu.sizeof(qt(n))
+            if (rec[1], fld) in PUBFIELDS:
+                if sz == 0:
+                    raise Unhandled("%s: public field %s.%s is an aggregate" % (self.name, rec[1], fld))
+                cls = "pub"
             return p, ("mem", cls == "pub", sz, add64(e, const(L[fld])))
         raise Unhandled("%s: lvalue %s" % (self.name, k))
 
@@ -496,6 +503,8 @@ class FnTr:
         if k == "UnaryExprOrTypeTraitExpr":
             if n.get("name") == "sizeof" and "argType" in n:
                 return [], const(self.tu.sizeof(n["argType"].get("desugaredQualType") or n["argType"]["qualType"]))
+            if n.get("name") == "sizeof" and n.get("inner"):
+                return [], const(self.tu.sizeof(qt(n["inner"][0])))
             raise Unhandled("%s: %s" % (self.name, n.get("name")))
         if k == "DeclRefExpr":
             # enum constant
@@ -888,6 +897,30 @@ class World:
         self.order.append(name)
 
 
+GUARD_FILES = ["src/math/zz/zz_add.c", "src/math/zz/zz_mul.c", "src/math/zz/zz_etc.c", "src/math/zz/zz_mod.c", "src/math/zz/zz_red.c",
+               "src/math/ww.c", "src/core/mem.c"]
+
+
+def guarded_routines():
+    """single-edition routines whose body contains an `#if(n)def SAFE_FAST` block (the regular code is
+    what the default build compiles): found by scanning the source text"""
+    out = []
+    for src in GUARD_FILES:
+        p = os.path.join(REPO, src)
+        if not os.path.exists(p):
+            continue
+        cur = None
+        for line in open(p, encoding="utf-8", errors="replace"):
+            m = re.match(r"^[A-Za-z_][\w \t\*]*?\b(\w+)\s*\(", line)
+            if m and not line.rstrip().endswith(";") and not line.startswith("typedef") and "SAFE(" not in line and "FAST(" not in line:
+                cur = m.group(1)
+            elif re.match(r"^[A-Za-z_].*\b(SAFE|FAST)\(", line):
+                cur = None
+            if re.match(r"^\s*#\s*if(n)?def\s+SAFE_FAST", line) and cur and (src, cur) not in out:
+                out.append((src, cur))
+    return out
+
+
 def safe_routines():
     """names of all routines defined as SAFE(f) in the anchored files (scan of the source text)"""
     out = []
@@ -1099,6 +1132,10 @@ def build(extra=EXTRA):
         if name not in W.fn:
             raise Unhandled("SAFE routine %s not translated" % name)
         roots.append(name)
+    for src, name in guarded_routines():
+        W.add(name, src)
+        if name not in roots:
+            roots.append(name)
     for src, name in VERIFY:
         if not os.path.exists(os.path.join(REPO, src)):
             raise Unhandled("anchored file missing: " + src)
